@@ -96,6 +96,92 @@ def dictionary(ctx, F, R="R-TABLE"):
                what="%s reads the entries %s instead of Type" % (fn, sorted(keys)))
 
 
+def resolvers(ctx, F, R="R-TABLE"):
+    """the lookups every query goes through: Document::get_object / get_object_mut look up exactly the id they are given in
+    `objects` (BTreeMap::get / get_mut — no ranges, no iteration) and resolve reference chains through Document::dereference
+    (bounded by DEREF_LIMIT); Dictionary::get_deref is dereference(get(key)); Stream::get_plain_content decides by the decoded
+    filter list (Stream::filters), not by the mere presence of a Filter key."""
+    for fn in ("Document::get_object", "Document::get_object_mut"):
+        b = F.fn(fn)
+        scope = F.with_closures(b)
+        prim = [c for b2 in scope for c in b2.calls if re.search(r"BTreeMap::<.*>::(get|get_mut)$", c.fn or "")]
+        other = [c for b2 in scope for c in b2.calls if re.search(r"BTreeMap::<.*>::(range|range_mut|iter|iter_mut|values|values_mut|keys|first_key_value|last_key_value|entry)$", c.fn or "")]
+        der = [c for b2 in scope for c in b2.calls if c.local and c.cname.endswith("Document::dereference")]
+        ctx.ob(R, "resolver-contract|%s" % fn, len(prim) >= 1 and not other and len(der) == 1,
+               "%s is objects.get(id) followed by dereference" % fn, b.where(),
+               what="%s no longer looks up exactly the (number, generation) it is given and resolves through Document::dereference (other map accesses: %s; dereference calls: %d): "
+                    "an id can resolve to another object (another generation), or a reference chain is followed without the hop limit"
+                    % (fn, sorted(set((c.fn or "").rsplit("::", 1)[-1] for c in other)), len(der)))
+    gd = F.fn("Dictionary::get_deref")
+    scope = F.with_closures(gd)
+    der = [c for b2 in scope for c in b2.calls if c.local and c.cname.endswith("Document::dereference")]
+    get = [c for b2 in scope for c in b2.calls if c.local and c.cname.endswith("Dictionary::get")]
+    direct = [c for b2 in scope for c in b2.calls if re.search(r"BTreeMap::<.*>::", c.fn or "")]
+    loops = [1 for b2 in scope if b2.loops()]
+    ctx.ob(R, "resolver-contract|Dictionary::get_deref", len(der) == 1 and len(get) == 1 and not direct and not loops, "get_deref is doc.dereference(self.get(key)?)", gd.where(),
+           what="Dictionary::get_deref no longer resolves through Document::dereference (direct map accesses: %d, own loops: %d): a chain of references is followed one step only, or without the hop limit"
+                % (len(direct), len(loops)))
+    gp = F.fn("Stream::get_plain_content")
+    fl = [c for c in gp.calls if c.local and c.cname.endswith("Stream::filters")]
+    dc = [c for c in gp.calls if c.local and c.cname.endswith("Stream::decompressed_content")]
+    ok = len(fl) == 1 and len(dc) == 1 and gp.dominates(fl[0].bb, dc[0].bb)
+    ctx.ob(R, "resolver-contract|Stream::get_plain_content", ok, "get_plain_content decodes only when Stream::filters() yields a non-empty list", gp.where(),
+           what="Stream::get_plain_content no longer decides by the decoded filter list (Stream::filters): a stream with `/Filter []` or `/Filter null` is run through the decoder loop and comes back empty or as an error")
+
+
+def font_precedence(ctx, F, R="R-ORDER"):
+    """fonts are collected from the page's own resources first and then from its ancestors: a name that is already present
+    must not be replaced (the page's own font wins over an inherited one of the same name)."""
+    gf = F.fn("Document::get_page_fonts")
+    import inv
+    scope = [F.bodies[q] for q in sorted(F.reach([gf.path])) if F.bodies[q].file == gf.file and "font" in q.lower()] or [gf]
+    n = 0
+    ok = True
+    for b in scope:
+        for c in b.calls:
+            if re.search(r"BTreeMap::<.*>::insert$", c.fn or "") and "Dictionary" in (c.full or ""):
+                n += 1
+                guarded = False
+                places = [(b, c.bb)] + (inv.closure_creation_blocks(F, b) if b.kind == "Closure" else [])
+                for pb, bb in places:
+                    for g, s2 in lib.taken_edges(pb, bb):
+                        t = pb.term(g)
+                        d = pb.def_rv(t["d"]) if t["dty"] == "bool" else None
+                        if d and d[2] == "call" and re.search(r"BTreeMap::<.*>::contains_key$", d[3]["f"].get("fn") or "") and t["else"] != s2:
+                            guarded = True
+                if not guarded:
+                    ok = False
+        if any(re.search(r"btree_map::Entry::<.*>::or_insert", c.fn or "") for c in b.calls):
+            n += 1
+    ctx.ob(R, "own-font-wins", ok and n >= 1, "a font name that is already collected is not replaced (%d insertion site(s))" % n, gf.where(),
+           what="get_page_fonts inserts a font under a name that may already be present: a font inherited from an ancestor /Pages node replaces the page's own font of the same name, "
+                "and its text is decoded with the wrong encoding")
+
+
+def bookmark_ids(ctx, F, R="R-ORDER"):
+    """add_bookmark stores the bookmark under the fresh id it returns: the id written into the bookmark, the key of
+    bookmark_table, and the value pushed to `bookmarks` / the parent's children are one and the same local."""
+    ab = F.fn("Document::add_bookmark")
+    ins = [c for c in ab.calls if re.search(r"HashMap::<.*>::insert$", c.fn or "")]
+    pushes = [c for c in ab.calls if re.search(r"Vec::<.*>::push$", c.fn or "") and "u32" in (c.full or "")]
+    ids = set()
+    for c in ins:
+        o = lib.origin_local(F, ab, c.args[1])
+        ids.add((o[1], tuple(map(str, o[2]))) if o else None)
+    for c in pushes:
+        o = lib.origin_local(F, ab, c.args[1])
+        ids.add((o[1], tuple(map(str, o[2]))) if o else None)
+    st = [(bi, si, s_) for bi, si, s_ in lib.stores_to_field(ab, "id", "Bookmark") if si != "T" and not ab.blocks[bi].get("cleanup")]
+    for bi, si, s_ in st:
+        o = lib.origin_local(F, ab, s_["rv"]["o"]) if s_["rv"]["k"] == "use" else None
+        ids.add((o[1], tuple(map(str, o[2]))) if o else None)
+    uncond = len(st) == 1 and len(ins) == 1 and ab.dominates(st[0][0], ins[0].bb)
+    ctx.ob(R, "bookmark-stored-under-fresh-id", len(ids) == 1 and None not in ids and uncond and len(pushes) >= 2,
+           "bookmark.id, the table key and the listed id are the same fresh id", ab.where(),
+           what="add_bookmark does not store the bookmark under the one fresh id it hands out (distinct id sources: %d, id assigned unconditionally: %s): "
+                "renumbering and outline building look the listed ids up in bookmark_table and miss the bookmark" % (len(ids), uncond))
+
+
 # ----------------------------------------------------------------------------- who may write
 
 def field_writer_table(F, adts):
@@ -186,31 +272,43 @@ def group_ids(ctx, F):
     prop_c11.id_rules(ctx, F)
 
 
-GROUPS = {"reader": group_reader, "strings": group_strings, "filters": group_filters, "ids": group_ids}
+def group_pages(ctx, F):
+    import prop_c12
+    prop_c12.skeleton_rules(ctx, F)
+
+
+def group_sections(ctx, F):
+    import prop_c03
+    prop_c03.section_building(ctx, F)
+
+
+GROUPS = {"reader": group_reader, "strings": group_strings, "filters": group_filters, "ids": group_ids, "sections": group_sections, "pages": group_pages}
 
 # rule groups shared between properties: a clause of several properties rests on the same piece of code
 GROUP_OF = {
-    "C01": ("reader", "strings", "ids"), "C02": ("reader", "filters"), "C03": ("reader", "strings", "ids"), "C05": ("reader", "strings", "ids"),
-    "C06": ("reader", "strings"), "C07": ("reader", "filters", "ids"), "C09": ("filters",), "C10": ("ids",), "C11": ("ids", "filters"),
-    "C14": ("strings",), "C17": ("strings", "ids"),
+    "C01": ("reader", "strings", "ids", "sections"), "C02": ("reader", "filters"), "C03": ("reader", "strings", "ids"),
+    "C05": ("reader", "strings", "ids"), "C06": ("reader", "strings"), "C07": ("reader", "filters", "ids", "sections"), "C09": ("filters",),
+    "C10": ("ids", "reader", "pages"), "C11": ("ids", "filters", "sections", "reader", "pages"), "C12": ("reader",), "C13": ("filters",),
+    "C14": ("strings",), "C16": ("strings",), "C17": ("strings", "ids", "reader"), "C19": ("sections", "reader"),
 }
 
 # which building blocks each property's clauses rest on (included by ./check after the property's own rules)
 CORE = {
     "C01": (("conversions", "dictionary"), ["Document", "Stream"]),
-    "C02": (("accessors", "dictionary"), ["Reader", "Xref"]),
+    "C02": (("accessors", "dictionary", "resolvers",), ["Reader", "Xref"]),
     "C03": (("conversions",), ["Xref", "XrefSection", "Stream"]),
-    "C05": (("accessors", "dictionary"), ["EncryptionState", "PasswordAlgorithm"]),
+    "C05": (("accessors", "dictionary", "resolvers",), ["EncryptionState", "PasswordAlgorithm"]),
     "C06": ((), ["EncryptionState", "PasswordAlgorithm"]),
-    "C07": (("accessors", "dictionary"), ["IncrementalDocument", "Document", "Xref"]),
+    "C07": (("accessors", "dictionary", "resolvers",), ["IncrementalDocument", "Document", "Xref"]),
     "C09": (("accessors", "conversions", "dictionary"), ["Stream"]),
-    "C10": (("accessors", "dictionary"), ["Document", "Bookmark"]),
-    "C11": (("accessors", "conversions", "dictionary"), ["Document", "Bookmark", "Stream"]),
-    "C12": (("accessors", "dictionary"), ["PageTreeIter"]),
-    "C13": (("accessors", "dictionary"), ["Toc"]),
-    "C14": (("accessors",), []),
-    "C15": ((), ["ToUnicodeCMap"]),
-    "C17": (("accessors", "conversions", "dictionary"), ["Bookmark", "Document"]),
+    "C10": (("accessors", "dictionary", "resolvers", "bookmarks",), ["Document", "Bookmark"]),
+    "C11": (("accessors", "conversions", "dictionary", "resolvers", "bookmarks",), ["Document", "Bookmark", "Stream"]),
+    "C12": (("accessors", "dictionary", "resolvers",), ["PageTreeIter"]),
+    "C13": (("accessors", "dictionary", "resolvers", "fonts",), ["Toc"]),
+    "C14": (("accessors", "dictionary"), []),
+    "C16": (("fonts",), []),
+    "C15": (("resolvers", "fonts",), ["ToUnicodeCMap"]),
+    "C17": (("accessors", "conversions", "dictionary", "resolvers", "bookmarks",), ["Bookmark", "Document"]),
     "C19": ((), ["CountingWrite", "Document"]),
 }
 
@@ -231,6 +329,12 @@ def run_for(ctx, prop):
         conversions(ctx, F)
     if "dictionary" in parts:
         dictionary(ctx, F)
+    if "resolvers" in parts:
+        resolvers(ctx, F)
+    if "fonts" in parts:
+        font_precedence(ctx, F)
+    if "bookmarks" in parts:
+        bookmark_ids(ctx, F)
     if adts:
         field_writers(ctx, F, adts)
     # shared rule groups: an obligation already recorded by the property's own rules is not repeated
